@@ -1931,3 +1931,56 @@ pub fn lane_renderers(seed: u64) -> Vec<Scenario> {
     }
     out
 }
+
+/// C13: what is captured of a single-script document that runs into its limit - output without
+/// a final line break in front of scrut's divider, and output that merely looks like a divider
+pub fn lane_script_partial(seed: u64) -> Vec<Scenario> {
+    let mut out = vec![];
+    let mut g = G::new(seed ^ 0x9a27);
+    for first in ["unterminated", "terminated", "empty"] {
+        for second in ["divider-like", "plain", "unterminated"] {
+            for stream in [Stream::Combined, Stream::Stdout] {
+                let mut sim = base_sim(g.rng.next_u64());
+                let mut tests = vec![];
+                for k in 0..3 {
+                    let mut t = g.test(&Plan::new(Fate::Pass), &mut sim.programs);
+                    let tag = t.nonce[..6].to_string();
+                    let o = |s: String| Op::Out { fd: 1, data: s.as_str().into() };
+                    let ops = match k {
+                        0 => match first {
+                            "unterminated" => vec![o(format!("abc-{}", tag)), Op::Status { code: 0 }],
+                            "terminated" => vec![o(format!("abc-{}\n", tag)), Op::Status { code: 0 }],
+                            _ => vec![Op::Status { code: 0 }],
+                        },
+                        1 => match second {
+                            "divider-like" => vec![o(format!("x-{}\n~~~~~~~~EXECDIVIDER::fake\ny-{}", tag, tag)), Op::Out { fd: 2, data: "~~~~~~~~EXECDIVIDER::\n".into() }, Op::Hang],
+                            "plain" => vec![o(format!("x-{}\n", tag)), Op::Hang],
+                            _ => vec![o(format!("x-{}", tag)), Op::Hang],
+                        },
+                        _ => vec![o(format!("never-{}\n", tag)), Op::Status { code: 0 }],
+                    };
+                    sim.programs.insert(t.nonce.clone(), ops);
+                    t.expectations = vec![];
+                    t.expect_match = false;
+                    tests.push(t);
+                }
+                let mut d = doc("partial.md", Format::Md, tests);
+                d.total_timeout_ns = Some(2 * SEC);
+                d.defaults.output_stream = Some(stream);
+                let mut sc = Scenario {
+                    lane: format!("script-partial/{}/{}/{:?}", first, second, stream),
+                    tier: Tier::Lib,
+                    script_mode: true,
+                    docs: vec![d],
+                    cli: Cli::default(),
+                    sim,
+                    pretty: false,
+                    check: vec!["C13".into()],
+                };
+                fill_expectations(&mut sc, &mut g);
+                out.push(sc);
+            }
+        }
+    }
+    out
+}
